@@ -7,6 +7,7 @@ TYPES = [(r'^nano::base_datasource_iterator_t$', 'struct nv_iter'),
          (r'^nano::indices_cmap_t$|tensor_t<nano::tensor_carray_storage_t, long, 1>', 'struct nv_t1i')]
 # element access of a rank-1 tensor map: t(i) -> t.p[i]  (CBMC's pointer checks then prove every real index in bounds)
 ELEM = [(r'^operator\(\)\|typename tbase::t(const)?ref \(const nano::tensor_size_t\)', '{0}.p[{1}]')]
+DRV = 'drivers/inst_c08.cpp'
 MASK_TU = 'src/datasource/mask.cpp'   # includes include/nano/datasource/mask.h
 
 ROUNDTRIP = r'''
@@ -28,9 +29,106 @@ int main(void)
 }
 '''
 
+# layout-free: a mask made by the real make_mask has the documented size and every bit clear (real getbit), and takes
+# part in the set/get round trip
+MAKE = r'''
+int main(void)
+{
+  struct nv_dims1 dims; int64_t s; int64_t g;
+  __CPROVER_assume(0 <= nv_samples && nv_samples <= NV_MAXS);
+  dims.d[0] = nv_samples;
+  __CPROVER_assume(0 <= s && s < nv_samples && 0 <= g && g < nv_samples);
+  nv_thrown = 0;
+  struct nv_mask m = mask_make(&dims);
+  __CPROVER_assert(m.n == NV_BYTES(nv_samples), "make_mask: (samples+7)/8 bytes");
+  __CPROVER_assert(!mask_getbit(&m, g), "make_mask: every bit is clear (no sample given)");
+  mask_setbit(&m, s);
+  __CPROVER_assert(mask_getbit(&m, g) == (g == s), "make_mask + setbit(s): exactly the bit of s is set");
+  __CPROVER_assert(0, "nv_canary: end of harness reachable");
+  return 0;
+}
+'''
 
-def mask_fns():
-    common = dict(types=TYPES, calls=ELEM + [(r'^getbit\|', 'mask_getbit')], uf_float=False)
+# the for (; it; ++it) protocol of every generator loop: operator bool true => sample() is evaluated inside the list, the
+# stored sample it returns is in [0, N); operator++ keeps 0 <= index <= size; the loop ends exactly at index == size
+ITER_PROTOCOL = r'''
+int main(void)
+{
+  struct nv_iter it;
+  __CPROVER_assume(0 <= nv_nsamples && nv_nsamples <= NV_MAXN);
+  __CPROVER_assume(0 <= it.m_samples.n && it.m_samples.n <= NV_MAXN);
+  it.m_samples.p = malloc(it.m_samples.n * sizeof(int64_t));
+  __CPROVER_assume(it.m_shuffled_all_samples.n == 0 || it.m_shuffled_all_samples.n == nv_nsamples);
+  it.m_shuffled_all_samples.p = malloc(it.m_shuffled_all_samples.n * sizeof(int64_t));
+  __CPROVER_assume(it.m_samples.p != NULL && it.m_shuffled_all_samples.p != NULL);
+  __CPROVER_assume(0 <= it.m_index && it.m_index <= it.m_samples.n);          /* loop invariant */
+  nv_thrown = 0;
+  if (iter_bool(&it))
+  {
+    __CPROVER_assume(NV_ITER_VALUES_OK(&it));   /* listed index in [0, N) (check(samples)), permutation into [0, N) */
+    int64_t s = iter_sample(&it);
+    __CPROVER_assert(0 <= s && s < nv_nsamples, "iterator protocol: the stored sample is in [0, samples())");
+    struct nv_iter* r = iter_inc(&it);
+    __CPROVER_assert(r == &it && 0 <= it.m_index && it.m_index <= it.m_samples.n, "iterator protocol: 0 <= index <= size is preserved by ++");
+  }
+  else
+  {
+    __CPROVER_assert(it.m_index == it.m_samples.n, "iterator protocol: the loop ends exactly at index == size");
+  }
+  __CPROVER_assert(0, "nv_canary: end of harness reachable");
+  return 0;
+}
+'''
+
+# the chain the last clause of the property is about: dataset_t::check(samples) returned normally => the sample that the
+# iterator hands to the storage readers (here: the real getbit on a mask of N samples, the permutation of N samples) is
+# in [0, N) and every read is inside its buffer.  Real check(samples) + real iterator + real getbit.
+GUARDED_READ = r'''
+int main(void)
+{
+  struct nv_dataset ds; struct nv_iter it; struct nv_mask mask; int64_t N;
+  __CPROVER_assume(0 <= N && N <= NV_MAXN);
+  nv_nsamples = N; nv_samples = N;
+  ds.m_datasource.m_testing.n = N; ds.m_datasource.m_testing.p = malloc(N * sizeof(int64_t));
+  mask.n = NV_BYTES(N); mask.p = malloc(mask.n);
+  __CPROVER_assume(0 <= it.m_samples.n && it.m_samples.n <= NV_MAXN);
+  it.m_samples.p = malloc(it.m_samples.n * sizeof(int64_t));
+  __CPROVER_assume(it.m_shuffled_all_samples.n == 0 || it.m_shuffled_all_samples.n == N);
+  it.m_shuffled_all_samples.p = malloc(it.m_shuffled_all_samples.n * sizeof(int64_t));
+  __CPROVER_assume(ds.m_datasource.m_testing.p != NULL && mask.p != NULL && it.m_samples.p != NULL && it.m_shuffled_all_samples.p != NULL);
+  __CPROVER_assume(0 <= it.m_index && it.m_index <= it.m_samples.n);
+  nv_g = it.m_index;                                 /* ghost position of the reductions = the position being read */
+  /* the permutation maps [0, N) into [0, N) (instance at the entry being read) */
+  if (it.m_index < it.m_samples.n && it.m_shuffled_all_samples.n != 0 && 0 <= NV_ITER_CUR(&it) && NV_ITER_CUR(&it) < N)
+    __CPROVER_assume(0 <= it.m_shuffled_all_samples.p[NV_ITER_CUR(&it)] && it.m_shuffled_all_samples.p[NV_ITER_CUR(&it)] < N);
+  nv_thrown = 0;
+  dataset_check_samples(&ds, it.m_samples);
+  if (!nv_thrown && iter_bool(&it))
+  {
+    int64_t s = iter_sample(&it);
+    __CPROVER_assert(0 <= s, "guarded read: the sample handed to the storage readers is >= 0");
+    __CPROVER_assert(s < N, "guarded read: the sample handed to the storage readers is < samples()");
+    _Bool given = mask_getbit(&mask, s);
+    (void)given;
+  }
+  __CPROVER_assert(0, "nv_canary: end of harness reachable");
+  return 0;
+}
+'''
+
+
+def make_mask_fn():
+    types = TYPES + [(r'^(nano::)?tensor_dims_t<1(UL)?>$|^std::array<long, 1>$|::tdims$', 'struct nv_dims1'),
+                     (r'^(nano::)?tensor_mem_t<uint8_t, 1(UL)?>$|^nano::tensor_t<nano::tensor_vector_storage_t, unsigned char, 1>$', 'struct nv_mask')]
+    return Fn('mask_make', DRV, 'make_mask', flt='nano::make_mask', select=lambda d: astload.template_args(d) == ['1'], types=types, uf_float=False,
+              calls=[(r'^get\|const long &\(const array<long, 1UL> &\)', '{0}.d[0]'),      # std::get<I> on a 1-element array: I == 0 is the only instance
+                     (r'^operator\[\]\|std::array<long, 1>::reference \(std::array::size_type\)', '{0}.d[{1}]'),
+                     (r'^ctor\|nano::tensor_t<nano::tensor_vector_storage_t, unsigned char, 1>\|void \((nano::tensor_t<nano::tensor_vector_storage_t, unsigned char, 1>::)?tdims\)', 'nv_mask_alloc({0})')],
+              members=[(r'^zero\|(nano::)?tensor_(mem_)?t<', 'nv_mask_zero')])
+
+
+def mask_fns(elem=None):
+    common = dict(types=TYPES, calls=(elem or ELEM) + [(r'^getbit\|', 'mask_getbit')], uf_float=False)
     setbit = Fn('mask_setbit', MASK_TU, 'setbit', flt='nano::setbit', **common)
     getbit = Fn('mask_getbit', MASK_TU, 'getbit', flt='nano::getbit', **common)
     optional = Fn('mask_optional', MASK_TU, 'optional', flt='nano::optional', **common)
@@ -38,7 +136,6 @@ def mask_fns():
 
 ITER_H = 'specs/C08/iter.h'
 DS_H = 'specs/C08/dataset.h'
-DRV = 'drivers/inst_c08.cpp'
 SIZE1 = [(r'^size\|nano::tensor_base_t<long, 1, true>', '{*self}.n')]
 
 
@@ -112,8 +209,11 @@ def build(tier):
     targets.append(Target('mask_getbit', [getbit], MASK_H))
     s2, g2, _ = mask_fns()
     targets.append(Target('mask_roundtrip', [s2, g2], MASK_H, enforce_none=True, harness=ROUNDTRIP))
-    _, g3, o3 = mask_fns()
-    targets.append(Target('mask_optional', [o3, g3], MASK_H, replace=['mask_getbit']))
+    # optional: the real getbit is inlined; element reads go through a stub that records the byte index as a witness
+    _, g3, o3 = mask_fns(elem=[(r'^operator\(\)\|typename tbase::tconstref \(const nano::tensor_size_t\)', '(*nv_mask_at({&0}, {1}))')])
+    targets.append(Target('mask_optional', [o3, g3], MASK_H))
+    s4, g4, _ = mask_fns()
+    targets.append(Target('mask_make', [make_mask_fn(), s4, g4], MASK_H, enforce_none=True, harness=MAKE))
     sample, inc, boolean, index, size = iter_fns()
     targets.append(Target('iter_sample', [sample], ITER_H))
     targets.append(Target('iter_inc', [inc], ITER_H))
@@ -124,6 +224,10 @@ def build(tier):
     targets.append(Target('dataset_check_feature', [chk_f, feats], DS_H))
     chk_s, chk_f, byf, feats, dss = dataset_fns()
     targets.append(Target('dataset_byfeature', [byf, chk_f, feats], DS_H, replace=['dataset_check_feature']))
+    targets.append(Target('iter_protocol', list(iter_fns()), ITER_H, enforce_none=True, harness=ITER_PROTOCOL))
+    chk_s, chk_f, byf, feats, dss = dataset_fns()
+    _, g5, _ = mask_fns()
+    targets.append(Target('dataset_guarded_read', [chk_s, dss, g5] + list(iter_fns()), DS_H, enforce_none=True, harness=GUARDED_READ))
     return {
         'targets': targets, 'vcs': [],
         'decided': [],
@@ -131,3 +235,41 @@ def build(tier):
         'assumptions': [],
         'trusted': [],
     }
+
+
+def replay(rp):
+    """range-guard counterexamples (dataset_check_samples / dataset_guarded_read): the verifier's sample count N and the
+    accepted list entry are replayed against a real in-memory datasource + dataset_t through the public API
+    (flatten / select); other targets have no native driver"""
+    import replaylib
+    out = {'reproduced': False, 'runs': []}
+    if rp['target'] not in ('dataset_check_samples', 'dataset_guarded_read'):
+        out['note'] = 'no native driver for this target: the replay file carries the verifier output only'
+        return out
+    cands = []
+    for fo in rp['failed_obligations']:
+        ce = fo.get('counterexample') or {}
+        n = None
+        idx = None
+        for k, v in ce.items():
+            if k.endswith('return_value_datasource_samples') or k.endswith('main::N'):
+                n = v
+            if k.endswith('nv_w_index'):
+                idx = v
+        try:
+            n, idx = int(str(n).rstrip('l')), int(str(idx).rstrip('l'))
+        except (TypeError, ValueError):
+            continue
+        if 0 <= n <= 2000000:
+            cands.append((n, idx))
+        elif idx == n:            # same input class at a size the driver can allocate: index == samples()
+            cands.append((16, 16))
+    if not cands:
+        cands = [(16, 16), (13, 13)]
+    exe = replaylib.build_with_library('replay/C08_replay.cpp', 'C08_replay')
+    for n, idx in dict.fromkeys(cands):
+        rc, so, se = replaylib.run_driver(exe, [n, idx])
+        out['runs'].append({'samples': n, 'index': idx, 'exit': rc, 'output': so.strip()[:2000]})
+        if rc == 1:
+            out['reproduced'] = True
+    return out
